@@ -538,10 +538,13 @@ def perimeter(bwimage, n=4, mode="constant"):
                     mh.convolve(perim, _perimeter_magic))
 
     if _perimeter_values is None:
-        _perimeter_values = np.zeros(34, float)
-        _perimeter_values[[5, 7, 15, 17, 25, 27]] = 1
-        _perimeter_values[[21, 33]] = np.sqrt(2)
-        _perimeter_values[[13, 23]] = (1 + np.sqrt(2)) / 2
+        # Build the table completely before publishing it: another thread may
+        # test the global at any point
+        values = np.zeros(34, float)
+        values[[5, 7, 15, 17, 25, 27]] = 1
+        values[[21, 33]] = np.sqrt(2)
+        values[[13, 23]] = (1 + np.sqrt(2)) / 2
+        _perimeter_values = values
 
     size = min(34, len(histogram))
     return np.dot(histogram[:size], _perimeter_values[:size])
